@@ -22,7 +22,7 @@ MANIFEST = {
     "note": "trusted: astropy header round trip; the multiprocessing model",
     "technique": "deterministic simulation: seeded schedule search of the parallel FITS cascade; oracle = leaf-range reference over the recorded tile tree",
 }
-BUDGET = {"quick": (400, 75), "thorough": (25000, 1500)}
+BUDGET = {"quick": (400, 75), "thorough": (90000, 1500)}
 REQUIRED_PROBES = {"quick": ["parallel_runs", "sparse_parent"], "thorough": ["parallel_runs", "sparse_parent", "with_filter"]}
 CHUNK = 5
 SELFTEST_EVERY = 25
